@@ -52,6 +52,7 @@ def gen_cases(ctx):
 def judge(ctx, case, res, mout, info_lines):
     par = case['cfg']['nworkers'] > 0
     small = {k: case[k] for k in ('cfg', 'n', 'tail', 'table', 'fkind', 'kwargs', 'schedule', 'demand', 'label', 'pre_counts', 'prior_n', 'pre_expected')}
+    pipelib.carry_flags(small, case)
     cl = case['cfg']['nworkers'] + case['cfg']['extracache']
     drops = any(t[0] == 'n' for t in case['table']) and case['cfg']['skipNone']
     ctx.case((case['cfg'], case['table'], case['demand'], case.get('schedule'), case['pre_expected']), drops and (cl >= 2 or not par), sample=small)
